@@ -142,6 +142,33 @@ Theorem C04_blocked_schedule_is_noop : forall y a,
 Proof. exact blocked_schedule_is_noop. Qed.
 Print Assumptions C04_blocked_schedule_is_noop.
 
+(* Teardown.  DStop = StandardRunService.Stop() by anyone, also by a handler of the service
+   itself: the task queue and the close channel are closed, expiring timers are dropped.  The
+   property says WHERE a piece runs, not that it must run: what is produced after the stop
+   may be dropped, but it may not run anywhere else.
+   - every action that is not a step of the consumer - DStop and everything produced before or
+     after it - leaves the consumer process where it is: it starts no piece;
+   - a send on a closed queue (Post after Stop) changes nothing;
+   - the one-at-a-time theorem above (C04_dispatcher_one_at_a_time) covers schedules with DStop;
+   - once the loop has seen the close signal and ended, no schedule whatsoever runs anything. *)
+Theorem C04_only_the_consumer_starts_pieces : forall y a,
+  (forall i, a <> DCons i) -> pcs (di (dstep y a)) = pcs (di y).
+Proof. exact dstep_pcs. Qed.
+Print Assumptions C04_only_the_consumer_starts_pieces.
+
+Theorem C04_post_after_stop_dropped : forall s c v,
+  snd (step s (OSend c v)) = ESent false -> fst (step s (OSend c v)) = s.
+Proof. exact closed_send_dropped. Qed.
+Print Assumptions C04_post_after_stop_dropped.
+
+Theorem C04_nothing_runs_after_the_loop_ended : forall n acts more,
+  let y := drun (dinit n) acts in
+  dexit y = true ->
+  let z := drun y more in
+  dexit z = true /\ pcs (di z) = [PTop] /\ running (di z) = 0%nat /\ dlog z = dlog y.
+Proof. exact after_exit. Qed.
+Print Assumptions C04_nothing_runs_after_the_loop_ended.
+
 (* The len(cases) == 0 branch of HandleOnce is never taken. *)
 Theorem C04_cases_never_empty : forall ops, ~ In ESleep (events ops).
 Proof. exact never_sleep. Qed.
@@ -217,6 +244,19 @@ Example C04_example_many_actors :
   dlog z = [(1, 101); (2, 102); (3, 103); (4, 104); (5, 105); (6, 106); (7, 107); (8, 108);
             (9, 109); (10, 110); (11, 111)] /\
   count_stat MIdle z = 12%nat /\ queue (sh (di z)) disp_chan = [].
+Proof. vm_compute. repeat split; reflexivity. Qed.
+
+(* teardown from inside a handler: the Post and the timer after the stop are dropped, the event
+   stays queued; the handler ends, the loop takes the close signal and ends; afterwards neither
+   the queued event nor anything produced later is ever run *)
+Example C04_example_teardown :
+  let y := drun (dinit 1) td_stop in
+  pcs (di y) = [PRun 2 2 5 true] /\ dstopped y = true /\ dexit y = false /\
+  queue (sh (di y)) sche_chan = [] /\ queue (sh (di y)) timer_chan = [] /\ queue (sh (di y)) 5 = [7] /\
+  let z := drun y td_end in
+  dexit z = true /\ pcs (di z) = [PTop] /\
+  let w := drun z td_more in
+  pcs (di w) = [PTop] /\ running (di w) = 0%nat /\ queue (sh (di w)) 5 = [7; 10] /\ dlog w = [].
 Proof. vm_compute. repeat split; reflexivity. Qed.
 
 (* a service machine: one item of every kind is executed by the consumer; with an overflow
